@@ -434,7 +434,9 @@ func (s *BaseVisitor) EnterOC_UnaryAddOrSubtractExpression(c *parser.OC_UnaryAdd
 func (s *BaseVisitor) EnterOC_NonArithmeticOperatorExpression(c *parser.OC_NonArithmeticOperatorExpressionContext) {
 }
 
-func (s *BaseVisitor) EnterOC_ListOperatorExpression(c *parser.OC_ListOperatorExpressionContext) {}
+func (s *BaseVisitor) EnterOC_ListOperatorExpression(c *parser.OC_ListOperatorExpressionContext) {
+	s.newUnsupportedRuleError(c)
+}
 
 func (s *BaseVisitor) EnterOC_PropertyLookup(c *parser.OC_PropertyLookupContext) {}
 
